@@ -67,6 +67,18 @@ func TestC10(t *testing.T) {
 		for _, tr := range []string{"tcp", "ipc", "tls+tcp"} {
 			cases = append(cases, mon.CaseSpec{Name: "acceptbusy/" + tr, Spec: spec{Kind: "acceptbusy", Tran: tr}})
 		}
+		for _, tr := range []string{"inproc", "ipc", "tcp"} {
+			for _, act := range []string{"socket", "listener"} {
+				for _, asyn := range []bool{false, true} {
+					cases = append(cases, mon.CaseSpec{Name: "dialwaiting/" + tr + "/" + act, Spec: spec{Kind: "dialwaiting", Tran: tr, Act: act, Peer: asyn}})
+				}
+			}
+		}
+		for _, tr := range hx.Transports {
+			for _, act := range []string{"socket", "listener"} {
+				cases = append(cases, mon.CaseSpec{Name: "loser/" + tr + "/" + act, Spec: spec{Kind: "loser", Tran: tr, Act: act}})
+			}
+		}
 		for _, target := range []string{"context", "dialer", "listener", "pipe"} {
 			for _, p := range []string{"req", "rep", "sub", "surveyor", "respondent", "pair", "bus"} {
 				if target == "context" && (p == "pair" || p == "bus") {
@@ -99,6 +111,10 @@ func TestC10(t *testing.T) {
 			runRaceListen(c, sp)
 		case "acceptbusy":
 			runAcceptBusy(c, sp)
+		case "dialwaiting":
+			runDialWaiting(c, sp)
+		case "loser":
+			runCloseLoser(c, sp)
 		}
 		if !c.Failed() {
 			census(c, sp, base, fds)
